@@ -36,8 +36,11 @@ def blockshape_facts(fm, node):
     conjunction, chained comparison, negated disjunction, early return, tuple-slice equality).  Equalities are closed
     under transitivity first."""
     import re
-    eqs = [(a[1], a[2]) for a in (fm.facts_at(node) or frozenset())
-           if a[0] == '==' and isinstance(a[1], str) and isinstance(a[2], str)]
+    from .facts import expand_defs
+    facts = fm.facts_at(node) or frozenset()
+    eqs = [(a[1], a[2]) for a in facts if a[0] == '==' and isinstance(a[1], str) and isinstance(a[2], str)]
+    # a component held in a local: traces_per_block = self.blockshape[1]; if traces_per_block == 4
+    eqs += [(expand_defs(l, facts), expand_defs(r, facts)) for (l, r) in list(eqs)]
     # blockshape[lo:hi] == (c0, c1, ..)
     for l, r in list(eqs):
         for x, y in ((l, r), (r, l)):
